@@ -756,7 +756,8 @@ namespace nmtools::index
             // note that we also explicit using size_t here
             // can't infer type (or using size_type ) :|
             // size_type si = at(shape,i);
-            [[maybe_unused]] size_t si = at(shape,s_i);
+            // NOTE: a trailing ellipsis may stand for zero axes, then there is no axis left to read
+            [[maybe_unused]] size_t si = (s_i < (size_t)len(shape) ? (size_t)at(shape,s_i) : size_t{1});
             using slice_t = meta::remove_cvref_t<decltype(slice)>;
 
             // helper lambda to decompose start stop and step
@@ -912,7 +913,8 @@ namespace nmtools::index
         meta::template_for<N_SLICES>([&](auto i){
             auto slice = at(slices_pack, i);
             // si may not be used in all constexpr branch
-            [[maybe_unused]] size_t si  = at(shape,s_i);
+            // NOTE: a trailing ellipsis may stand for zero axes, then there is no axis left to read
+            [[maybe_unused]] size_t si  = (s_i < (size_t)dim ? (size_t)at(shape,s_i) : size_t{1});
             using slice_t = meta::remove_cvref_t<decltype(slice)>;
             if constexpr (meta::is_index_v<slice_t>) {
                 if constexpr (meta::is_signed_v<slice_t>) {
